@@ -200,7 +200,11 @@ class Printer:
                 s = q(parts[0])
             elif self.schema is not None:
                 if len(parts) != 1:
-                    # qualified by something the planner should have removed: keep it -> fails loudly if wrong
+                    # qualified by something the planner should have removed.  One sqlite connection stands for all
+                    # integrations, so a reference to (another) integration would resolve here: refuse it explicitly
+                    if parts[0].lower() in self.interp.integration_names():
+                        raise PlanExecError('foreign-table', f'the query sent to integration {self.schema!r} refers to {".".join(parts)!r}: '
+                                                             f'an integration can only see its own tables, without qualifier')
                     s = '.'.join(q(p) for p in parts)
                 else:
                     s = f'{q(self.schema)}.{q(parts[0])}'
@@ -320,6 +324,11 @@ class Interp:
         self.trace = []
 
     # -------------------------------------------------------------- helpers
+    def integration_names(self):
+        if getattr(self, '_ints', None) is None:
+            self._ints = {r[1].lower() for r in self.con.execute('PRAGMA database_list') if r[1].lower() not in ('main', 'temp')}
+        return self._ints
+
     def cleanup(self):
         for t in self.tmp:
             try:
